@@ -382,6 +382,12 @@ def slot_desc(name, prop):
         embedded = ["one", class_key(prop.type)]
     elif isinstance(prop, P.ListProperty) and inspect.isclass(prop.contained) and type(prop) is P.ListProperty:
         embedded = ["many", class_key(prop.contained)]
+    elif type(prop) is P.ExtensionsProperty:
+        embedded = ["extensions", prop.spec_version]
+    elif type(prop) is P.ListProperty and type(prop.contained) is P.STIXObjectProperty:
+        embedded = ["stix_objects", prop.contained.spec_version]
+    elif type(prop) is P.ObservableProperty:
+        embedded = ["observables", prop.spec_version]
     return {"name": name, "ptype": type(prop).__name__, "required": bool(prop.required), "embedded": embedded,
             "default": hasattr(prop, "default"), "fixed": hasattr(prop, "_fixed_value"),
             "objref": ref, "contained": contained,
@@ -399,12 +405,15 @@ def describe():
     out["registry"] = reg
     # registered extension classes: their _toplevel_properties (None = no such attribute)
     ext_tl = {}
+    ext_cls = {}
     for ver, cats in stix2.registry.STIX2_OBJ_MAPS.items():
         ext_tl[ver] = {}
         for t, c in sorted(cats.get("extensions", {}).items()):
             tl = getattr(c, "_toplevel_properties", None)
             ext_tl[ver][t] = None if tl is None else [slot_desc(n, p) for n, p in tl.items()]
+            ext_cls.setdefault(ver, {})[t] = class_key(c) if inspect.isclass(c) else None
     out["ext_toplevel"] = ext_tl
+    out["ext_class"] = ext_cls
     # source text of every __init__ / _check_object_constraints definition that can run
     hook_src = {}
     seen = set()
